@@ -65,6 +65,12 @@ def _install_probes(kd):
                 t.sim.captured["in_search"] = False
                 if not t.sim.aborting and not t.killed:
                     t.sim.ev("search-exit")
+                    w = getattr(t.sim, "world", None)
+                    if w is not None:
+                        t.sim.captured["procs_at_exit"] = [
+                            (p.pid, p.task is None or p.task.done or p.task.killed, p.joined)
+                            for p in w.procs if p.started]
+                        t.sim.captured["mgr_shut"] = [m.shut for m in w.managers]
 
     create_DG.__wrapped__ = orig_create
     check_for_loopcarried_dep.__wrapped__ = orig_check
